@@ -692,6 +692,21 @@ func (e fsEngine) Exec(ci interface{}, st *Stats) (*Violation, interface{}, bool
 		}
 		return nil, nil, true
 	}
+	if c.Fault == "gostr" {
+		r := newFSRuntime()
+		r.vm.Set("__gs", invalidGoStrings[c.K])
+		st.Runs++
+		val, err, panicked, pv := protectedRun(r.vm, c.Prog)
+		if panicked {
+			return viol("C02", "go_panic_escaped", "with S = the Go string %q set through Otto.Set, `%s`: Run panicked with %T: %v", invalidGoStrings[c.K], c.Prog, pv, clip(fmt.Sprint(pv))), c, true
+		}
+		if err == nil {
+			if bad := valueAccessors(r.vm, val); bad != "" {
+				return viol("C02", "go_panic_escaped", "`%s`: %s", c.Prog, bad), c, true
+			}
+		}
+		return nil, nil, true
+	}
 	if c.Fault == "prop" && c.Prog != "" {
 		r := newFSRuntime()
 		st.Runs++
@@ -1126,10 +1141,51 @@ func execStrSweep(c *FSCase, st *Stats) (*Violation, interface{}, bool) {
 			}
 		}
 	}
+	if c.From == 0 {
+		// Go strings that are not valid UTF-8, handed in through the API and then
+		// given to every built-in (script source cannot produce them)
+		for gi, gs := range invalidGoStrings {
+			r.vm.Set("__gs", gs)
+			for _, path := range paths {
+				for si, shape := range shapes {
+					if strings.HasPrefix(shape, "new ") && strings.Contains(path, ".prototype.") {
+						continue
+					}
+					src := "(function(){var S=__gs;return " + fmt.Sprintf(shape, path) + "})()"
+					st.Runs++
+					st.Fault("invalid_utf8_go_string")
+					val, err, panicked, pv := protectedRun(r.vm, src)
+					bad := ""
+					if panicked {
+						bad = fmt.Sprintf("Run panicked with %T: %v", pv, clip(fmt.Sprint(pv)))
+						r = newFSRuntime()
+						r.vm.Set("__gs", gs)
+					} else if err == nil && si%4 == 0 {
+						bad = valueAccessors(r.vm, val)
+					}
+					if bad != "" {
+						x := viol("C02", "go_panic_escaped", "with S = the Go string %q set through Otto.Set, `%s`: %s", gs, src, bad)
+						x.Key = "gostr " + strconv.Itoa(gi) + " " + path + " shape " + strconv.Itoa(si)
+						if kf := isKnown(x); kf != nil {
+							st.Known[kf.Property+" "+kf.Key]++
+							continue
+						}
+						if collectMode {
+							st.Probes["COLLECT "+x.Class+" | "+x.Key+" | "+clip(x.Detail)]++
+							continue
+						}
+						return x, &FSCase{Engine: "faultsweep", Fault: "gostr", Prog: src, K: gi}, true
+					}
+				}
+			}
+		}
+	}
 	st.NonTrivial++
 	st.Sig(hashStr("str", tmpl))
 	return nil, nil, true
 }
+
+var invalidGoStrings = []string{"\xff", "a\xc3", "\xed\xa0\x80z", "\xf8\x88\x80\x80\x80", "ok\x80\xbf"}
 
 // short operation histories on one array / object: receiver states that no
 // single call creates (non-configurable elements, rolled-back length, ...)
@@ -1226,6 +1282,9 @@ func (fsEngine) Enumerate(tier string) []interface{} {
 		out = append(out, &FSCase{Engine: "faultsweep", Fault: "cycleprobe", Prog: p})
 	}
 	for _, p := range bridgeProgs() {
+		out = append(out, &FSCase{Engine: "faultsweep", Fault: "prop", Prog: p})
+	}
+	for _, p := range labelProgs() {
 		out = append(out, &FSCase{Engine: "faultsweep", Fault: "prop", Prog: p})
 	}
 	// nesting that every implementation must survive (all kinds), and nesting that
